@@ -553,7 +553,11 @@ def x_For(E, node, st):
             seq = seq_of(E, itv if not isinstance(itv, IterView) else _view_seq(E, itv, s0), s0)
             b = binder(E, seq, s0)
             _, bs, guard, ev, idx, n = b
-        yield from _sym_for(E, node, s0, bs, guard, ev, idx, n, invs, fname, ordinal)
+        try:
+            seqval = seq_of(E, itv, s0) if not isinstance(itv, SVal) or isinstance(itv.ty, (TOpt,)) else itv
+        except OutsideSubset:
+            seqval = None
+        yield from _sym_for(E, node, s0, bs, guard, ev, idx, n, invs, fname, ordinal, seqval)
 
 
 def _view_seq(E, view, st):
@@ -562,7 +566,7 @@ def _view_seq(E, view, st):
     raise OutsideSubset(f"for over {view.kind}")
 
 
-def _sym_for(E, node, st, bs, guard, ev, idx, n, invs, fname, ordinal):
+def _sym_for(E, node, st, bs, guard, ev, idx, n, invs, fname, ordinal, itv=None):
     """loop over a symbolic-length sequence with an inductive invariant (default: True, i.e. havoc of the loop targets)"""
     from .comp import bind_target
     i = bs[0]
@@ -575,6 +579,8 @@ def _sym_for(E, node, st, bs, guard, ev, idx, n, invs, fname, ordinal):
         if not invs:
             return []
         frame = {kname: SVal(kval, INT)}
+        if isinstance(itv, SVal):
+            frame["seq"] = itv
         out = []
         for j, e in enumerate(invs):
             out.append((j, eval_spec(E, e, s, frame, old=s.old)))
